@@ -68,3 +68,22 @@ Proof. eexists. split; vm_compute; reflexivity. Qed.
 Example C18_subsume_keeps_stronger :
   exists s, add_all (mkNS (buckets (ngs_new 2)) DSubsume) [[T]; [T;T]] = Some s /\ stored s = [[T]].
 Proof. eexists. split; vm_compute; reflexivity. Qed.
+
+(** the small public operations on single nogoods / interpretations (used by the store, public on their own) *)
+Theorem C18_pairs_constructor : forall l r, try_from_pair_iter l = Some r ->
+  l <> [] /\ (forall i b, In (i, b) l -> ngat r i = lit b) /\
+  (forall i, ngat r i <> U -> exists b, In (i, b) l /\ ngat r i = lit b).
+Proof. exact try_from_pair_iter_spec. Qed.
+Print Assumptions C18_pairs_constructor.
+Theorem C18_contradicting : forall x y, is_contradicting x y = true <->
+  exists i, ngat x i <> U /\ ngat y i <> U /\ ngat x i <> ngat y i.
+Proof. exact is_contradicting_spec. Qed.
+Print Assumptions C18_contradicting.
+Theorem C18_disjunction : forall x y,
+  (forall a, matches x a -> matches y a -> matches (disjunction x y) a) /\
+  (is_contradicting y x = false -> ng_sub x (disjunction x y)).
+Proof. intros x y; split; [exact (disjunction_matches x y) | exact (disjunction_sub x y)]. Qed.
+Print Assumptions C18_disjunction.
+Example C18_pairs_reject_two_values : try_from_pair_iter [(1, true); (0, false); (1, false)]%nat = None
+  /\ try_from_pair_iter [] = None /\ try_from_pair_iter [(1, true); (1, true)]%nat = Some [U; T].
+Proof. repeat split. Qed.
